@@ -276,6 +276,12 @@ def rule_status_table(ctx):
             if isinstance(node.value, ast.Dict) and all(isinstance(k_, ast.Constant) for k_ in node.value.keys):
                 dicts[node.targets[0].id] = {k_.value: v_ for k_, v_ in zip(node.value.keys, node.value.values)}
     anchor(svar is not None, 'Simulation.integrate stores the result of reb_simulation_integrate in a local')
+    # tables kept at module level
+    mod = db.files[db.classes['Simulation'].path]
+    for node in mod.body:
+        if isinstance(node, ast.Assign) and len(node.targets) == 1 and isinstance(node.targets[0], ast.Name) and isinstance(node.value, ast.Dict) \
+                and node.value.keys and all(isinstance(k_, ast.Constant) and isinstance(k_.value, int) for k_ in node.value.keys):
+            dicts.setdefault(node.targets[0].id, {k_.value: v_ for k_, v_ in zip(node.value.keys, node.value.values)})
 
     def test_value(t, v):
         """truth of a test for status == v; None when it does not depend on the status alone"""
